@@ -3,7 +3,7 @@
 From Coq Require Import String.
 From Coq Require Import List Ascii ZArith Bool Lia.
 From CGV Require Import Base.PyBase Base.PyVal Base.NxGraph Resolve.Bonding Resolve.GraphOps Resolve.Pipeline
-     Resolve.MapDefs Resolve.Witness Resolve.MapProofs Resolve.CopyProofs Resolve.PipelineFull Resolve.FragidProofs Resolve.EdgeCopy Resolve.EdgeCopyGen.
+     Resolve.MapDefs Resolve.Witness Resolve.MapProofs Resolve.CopyProofs Resolve.PipelineFull Resolve.FragidProofs Resolve.EdgeCopy Resolve.EdgeCopyGen Resolve.BondedCopy Resolve.BondingDefs.
 From CGV Require Hydro.SquashDefs Hydro.SquashProofs Compose.GraphAdj Compose.GraphFacts.
 From CGV Require Import Compose.CutModel Compose.ComposeFlat Compose.CutSpecCheck Compose.LevelsExamples.
 Import ListNotations.
@@ -152,6 +152,45 @@ Theorem C02_bonding_keeps_edges : forall legacy aa meta mol fgs mol' fgs', bondi
   exists s1 bonds, bonds_of legacy meta mol fgs = Ok (s1, bonds) /\
     forall x y, (forall b, In b bonds -> GraphFacts.upair x y (b_u b) (b_v b) = false) -> edge_attrs mol' x y = edge_attrs mol x y.
 Proof. exact bonding_keeps_edges. Qed.
+(** ... and survives it (Resolve/BondedCopy.v).  A bond joins an atom of the fragment graph of its source coarse node with an atom
+    of the fragment graph of its target coarse node (from C03's balance invariant), and those atoms record the key of their coarse
+    node ([fg_inv]) *)
+Theorem C02_bond_atoms_in_tables : forall legacy arom edges s0 s' bonds, wf_edges edges -> wf_state s0 ->
+  edges_from_bonding legacy arom edges s0 [] = Ok (s', bonds) ->
+  forall b, In b bonds -> b_src b <> b_tgt b /\ In (b_u b) (map fst (slookup (b_src b) s0)) /\ In (b_v b) (map fst (slookup (b_tgt b) s0)).
+Proof. exact bond_in_tables. Qed.
+Theorem C02_fragment_graphs_record_key : forall fd meta mol fgs, tmpl_dict fd -> resolve_disconnected fd meta = Ok (mol, fgs) -> fg_inv mol fgs.
+Proof. exact disconnected_fg_inv. Qed.
+(** hence, for an arbitrary dictionary of well-formed templates and an arbitrary coarse graph whose base edges join different coarse
+    nodes: after the bonding stage - in the graph [fo_m2] of every end-to-end step, whatever the flags - every coarse node with a
+    fragment still has its copy: an injective map cf from template atoms to fine nodes recording exactly [coarse key] and
+    [(fragname, atom)], with exactly the template's edge dicts between them and no edge where the template has none *)
+Theorem C02_bonded_edges_copy : forall fd meta m1 fg1 legacy aa m2 fg2, tmpl_dict fd -> resolve_disconnected fd meta = Ok (m1, fg1) ->
+  bonding_step legacy aa meta m1 fg1 = Ok (m2, fg2) -> (forall es, base_edges meta = Ok es -> wf_edges es) ->
+  forall pre mn post fv name frag, meta = (pre ++ mn :: post)%list ->
+  aget (S "fragname") (na mn) = Some fv -> lookup_fragment fd fv = Some (name, frag) ->
+  exists cf : Z -> Z,
+    (forall a b, In a (node_keys frag) -> In b (node_keys frag) -> cf a = cf b -> a = b) /\
+    (forall n, In n frag -> node_get m2 (cf (nk n)) (S "fragid") = Some (VList [VInt (nk mn)]) /\
+                            node_get m2 (cf (nk n)) (S "mapping") = Some (mapping_val name (nk n))) /\
+    (forall a b, In a (node_keys frag) -> In b (node_keys frag) -> edge_attrs m2 (cf a) (cf b) = tmpl_edge frag a b).
+Proof. exact bonded_edges_copy. Qed.
+Theorem C02_step_bonded_edges_copy : forall legacy aa fd prev car fo, tmpl_dict fd -> resolve_step_full legacy aa fd prev car = Ok fo ->
+  (forall es, base_edges (fo_meta fo) = Ok es -> wf_edges es) ->
+  forall pre mn post fv name frag, fo_meta fo = (pre ++ mn :: post)%list ->
+  aget (S "fragname") (na mn) = Some fv -> lookup_fragment fd fv = Some (name, frag) ->
+  exists cf : Z -> Z,
+    (forall a b, In a (node_keys frag) -> In b (node_keys frag) -> cf a = cf b -> a = b) /\
+    (forall n, In n frag -> node_get (fo_m2 fo) (cf (nk n)) (S "fragid") = Some (VList [VInt (nk mn)]) /\
+                            node_get (fo_m2 fo) (cf (nk n)) (S "mapping") = Some (mapping_val name (nk n))) /\
+    (forall a b, In a (node_keys frag) -> In b (node_keys frag) -> edge_attrs (fo_m2 fo) (cf a) (cf b) = tmpl_edge frag a b).
+Proof. exact step_bonded_edges_copy. Qed.
+(** non-vacuity (with C02_disconnected_edges_copy_nonvacuous: tmpl_dict fd_AB): the base edges of {[#V].[#A][#B]} join different
+    coarse nodes and the step returns *)
+Example C02_step_bonded_edges_copy_nonvacuous :
+  match base_edges base_VAB with Ok es => forallb (fun e => negb (Z.eqb (fst (fst e)) (snd (fst e)))) es | Err _ => false end = true /\
+  match resolve_step_full true false fd_AB base_VAB None with Ok fo => Nat.eqb (length (fo_m2 fo)) 3 | Err _ => false end = true.
+Proof. split; vm_compute; reflexivity. Qed.
 (** non-vacuity: the witness dictionary satisfies tmpl_dict and the loop returns on {[#V].[#A][#B]} *)
 Example C02_disconnected_edges_copy_nonvacuous :
   tmpl_dict fd_AB /\ match resolve_disconnected fd_AB base_VAB with Ok (mol, _) => Nat.eqb (length mol) 3 | Err _ => false end = true.
@@ -192,6 +231,10 @@ Print Assumptions C02_merge_edges_copy.
 Print Assumptions C02_disc_step_edges.
 Print Assumptions C02_disconnected_edges_copy.
 Print Assumptions C02_bonding_keeps_edges.
+Print Assumptions C02_bond_atoms_in_tables.
+Print Assumptions C02_fragment_graphs_record_key.
+Print Assumptions C02_bonded_edges_copy.
+Print Assumptions C02_step_bonded_edges_copy.
 Print Assumptions C02_frag_exact.
 Print Assumptions C02_frag_cover.
 Print Assumptions C02_fragid_singleton.
